@@ -57,6 +57,7 @@ type Job struct {
 	MaxPerKey int
 	Redirect  map[string]string // qualified function name -> harness function that models it
 	Solver    string // "" = default (z3); "cvc5" for floating-point heavy jobs
+	LockedWritesOK bool // C12: a write made while a mutex is held is synchronised, not a race
 
 	idx         int
 	witCounter  int64
@@ -459,7 +460,7 @@ func (x *Exec) resetPath() {
 	x.known = map[string]uint64{}
 	x.notEq = map[string]map[uint64]bool{}
 	x.roots, x.tape, x.notes, x.abstract = nil, nil, nil, nil
-	x.syncMaps, x.onceDone = nil, nil
+	x.syncMaps, x.onceDone, x.lockDepth = nil, nil, 0
 	x.steps, x.depth, x.epoch, x.monitor, x.catching = 0, 0, 1, false, 0
 	x.curFn, x.curIn = nil, nil
 	x.funcs = map[*ssa.Function]bool{}
